@@ -9,6 +9,8 @@
 #include "vharness.hpp"
 #include "vlafem.hpp"
 #include <kernel/adjacency/permutation.hpp>
+#include <kernel/lafem/vector_mirror.hpp>
+#include <kernel/lafem/sparse_matrix_factory.hpp>
 #include <memory>
 #include <type_traits>
 
@@ -136,6 +138,8 @@ void check_slot(int sno, const MT& a, const vj::Value& st, std::vector<PtrRec>& 
     throw Fail{"dims", tag + ": dimensions " + std::to_string(a.rows()) + "x" + std::to_string(a.columns()) + " expected " + std::to_string(m) + "x" + std::to_string(n)};
   if(a.used_elements() != Index(st["ue"].as_int()))
     throw Fail{"used_elements", tag + ": used_elements " + std::to_string(a.used_elements()) + " expected " + std::to_string(st["ue"].as_int())};
+  if(a.size() != m * n)
+    throw Fail{"size", tag + ": size() " + std::to_string(a.size()) + " expected " + std::to_string(m * n)};
   const auto& es = a.get_elements(); const auto& ess = a.get_elements_size();
   const auto& is = a.get_indices(); const auto& iss = a.get_indices_size();
   if(es.size() != st["el"].size() || is.size() != st["ix"].size() || ess.size() != es.size() || iss.size() != is.size())
@@ -177,8 +181,20 @@ void check_slot(int sno, const MT& a, const vj::Value& st, std::vector<PtrRec>& 
           ok = Index(is[0][t]) < n && (t == Index(is[1][r]) || is[0][t - 1] < is[0][t]);
       }
       if(FA::id != 1 && nr != m) ok = false;
-      if(!ok) throw Fail{"invalid_layout", tag + ": row pointer / column index arrays are not a valid layout"};
+      if constexpr (FA::id == 1)
+      {
+        // compressed rows: one ascending in-range row number per row pointer interval
+        ok = ok && is.size() >= 3 && iss[2] == nr;
+        for(Index r = 0; r < nr && ok; ++r) ok = Index(is[2][r]) < m && (r == 0 || is[2][r - 1] < is[2][r]);
+      }
+      if(!ok) throw Fail{"invalid_layout", tag + ": row pointer / column index / row number arrays are not a valid layout"};
     }
+  }
+  if constexpr (FA::id == 1)
+  {
+    Index ur = st["ix"].size() >= 3 ? Index(st["ix"][2]["d"].size()) : Index(0);
+    if(a.used_rows() != ur)
+      throw Fail{"used_rows", tag + ": used_rows() " + std::to_string(a.used_rows()) + " expected " + std::to_string(ur)};
   }
   // dense expansion through the element accessor
   if(st["def"].as_bool() && (is.size() > 0 || FA::id == 3))
@@ -254,13 +270,20 @@ template<class FS, class FD, bool same_ty> constexpr bool conv_ok()
 }
 
 template<class FS, class FD, class TS, class TD, class MS>
-void do_conv(World& w, int dst, const std::string& fmt, const std::string& ty, const MS& a)
+void do_conv(World& w, int dst, const std::string& fmt, const std::string& ty, const MS& a, bool ctor)
 {
   constexpr bool same = std::is_same<TS, TD>::value;
   if constexpr (conv_ok<FS, FD, same>())
   {
     auto& b = target<FD, TD>(w, dst, fmt, ty);
-    b.convert(a);
+    if(!ctor) { b.convert(a); return; }
+    // the converting constructor template <MT_> explicit MT(const MT_&) of csr / cscr / banded
+    if constexpr ((FD::id == 0 || FD::id == 1 || FD::id == 2) && !(std::is_same<FS, FD>::value && same))
+    {
+      typedef typename FD::template M<typename TD::DT, typename TD::IT> MD;
+      b = MD(a);
+    }
+    else throw std::runtime_error("no converting constructor: " + fmt);
   }
   else throw std::runtime_error("no such conversion: " + fmt);
 }
@@ -285,10 +308,11 @@ static void run_step(World& w, const vj::Value& st)
       typedef decltype(fs) FS; typedef decltype(ts) TS;
       with_ty(ty, [&](auto td) {
         typedef decltype(td) TD;
-        if(fmt == S.fmt) do_conv<FS, FS, TS, TD>(w, dst, fmt, ty, a);
-        else if(fmt == "csr") do_conv<FS, FCSR, TS, TD>(w, dst, fmt, ty, a);
-        else if(fmt == "cscr") do_conv<FS, FCSCR, TS, TD>(w, dst, fmt, ty, a);
-        else if(fmt == "banded") do_conv<FS, FBAND, TS, TD>(w, dst, fmt, ty, a);
+        const bool ctor = st.has("ctor") && st["ctor"].as_bool();
+        if(fmt == S.fmt) do_conv<FS, FS, TS, TD>(w, dst, fmt, ty, a, ctor);
+        else if(fmt == "csr") do_conv<FS, FCSR, TS, TD>(w, dst, fmt, ty, a, ctor);
+        else if(fmt == "cscr") do_conv<FS, FCSCR, TS, TD>(w, dst, fmt, ty, a, ctor);
+        else if(fmt == "banded") do_conv<FS, FBAND, TS, TD>(w, dst, fmt, ty, a, ctor);
         else throw std::runtime_error("conv target " + fmt);
       });
     });
@@ -297,7 +321,14 @@ static void run_step(World& w, const vj::Value& st)
   {
     CloneMode cm = clone_mode(st["mode"].as_str());
     with_slot(S, [&](auto fs, auto, auto& a) {
-      with_ty(ty, [&](auto td) { auto& b = target<decltype(fs), decltype(td)>(w, dst, S.fmt, ty); b.clone(a, cm); });
+      const bool byval = st.has("ctor") && st["ctor"].as_bool();
+      with_ty(ty, [&](auto td) {
+        auto& b = target<decltype(fs), decltype(td)>(w, dst, S.fmt, ty);
+        if(!byval) { b.clone(a, cm); return; }
+        // the member returning a new container: dst = src.clone(mode)
+        if constexpr (std::is_same<typename std::remove_reference<decltype(a)>::type, typename std::remove_reference<decltype(b)>::type>::value) b = a.clone(cm);
+        else throw std::runtime_error("clone by value with a different type");
+      });
     });
   }
   else if(op == "transp")
@@ -332,12 +363,26 @@ static void run_step(World& w, const vj::Value& st)
   }
   else if(op == "permute")
   {
-    IVec p = st["p"].ints(), q = st["q"].ints();
-    std::vector<Index> pp(p.size()), qq(q.size());
-    for(std::size_t k = 0; k < p.size(); ++k) pp[k] = Index(p[k] - 1);
-    for(std::size_t k = 0; k < q.size(); ++k) qq[k] = Index(q[k] - 1);
-    Adjacency::Permutation pr(Index(pp.size()), Adjacency::Permutation::ConstrType::perm, pp.data());
-    Adjacency::Permutation pc(Index(qq.size()), Adjacency::Permutation::ConstrType::perm, qq.data());
+    // the permutation objects are built by the route the specification names (constructor type + its argument array)
+    auto mkperm = [&](const char* kk, const char* kv, const char* kp) {
+      typedef Adjacency::Permutation::ConstrType CT;
+      std::string kind = st.has(kk) ? st[kk].as_str() : std::string("");
+      if(kind.empty() || kind == "perm")
+      {
+        IVec p = st[kp].ints(); std::vector<Index> v(p.size());
+        for(std::size_t k = 0; k < p.size(); ++k) v[k] = Index(p[k] - 1);
+        return Adjacency::Permutation(Index(v.size()), CT::perm, v.data());
+      }
+      IVec a = st[kv].ints(); std::vector<Index> v(a.size());
+      for(std::size_t k = 0; k < a.size(); ++k) v[k] = Index(a[k]);
+      if(kind == "inv_perm") return Adjacency::Permutation(Index(v.size()), CT::inv_perm, v.data());
+      if(kind == "swap") return Adjacency::Permutation(Index(v.size()), CT::swap, v.data());
+      if(kind == "inv_swap") return Adjacency::Permutation(Index(v.size()), CT::inv_swap, v.data());
+      if(kind == "inverse") return Adjacency::Permutation(Index(v.size()), CT::perm, v.data()).inverse();
+      throw std::runtime_error("unknown permutation route " + kind);
+    };
+    Adjacency::Permutation pr = mkperm("pk", "pv", "p");
+    Adjacency::Permutation pc = mkperm("qk", "qv", "q");
     with_slot(S, [&](auto fs, auto, auto& a) {
       typedef decltype(fs) FS;
       if constexpr (FS::id == 0 || FS::id == 4) a.permute(pr, pc);
@@ -382,6 +427,74 @@ static void run_step(World& w, const vj::Value& st)
           else b = MD(g);
         });
       else throw std::runtime_error("no graph constructor for dense");
+    });
+  }
+  else if(op == "mirror")
+  {
+    // dst = SparseMatrixCSCR(csr, mirror): row selection by a vector mirror
+    IVec rows = st["p"].ints();
+    with_slot(S, [&](auto fs, auto ts, auto& a) {
+      typedef decltype(fs) FS; typedef decltype(ts) TS; typedef typename TS::DT DT; typedef typename TS::IT IT;
+      if constexpr (FS::id == 0)
+      {
+        VectorMirror<DT, IT> mir(a.rows(), Index(rows.size()));
+        for(std::size_t k = 0; k < rows.size(); ++k) mir.indices()[k] = IT(rows[k] - 1);
+        auto& b = target<FCSCR, TS>(w, dst, "cscr", S.ty);
+        b = SparseMatrixCSCR<DT, IT>(a, mir);
+      }
+      else throw std::runtime_error("mirror constructor needs a csr source");
+    });
+  }
+  else if(op == "alloc")
+  {
+    // the allocating constructors MT(rows, columns, used_elements[, used_rows]) / DenseMatrix(m, n[, value])
+    Index m = Index(w.exp[src]["m"].as_int()), n = Index(w.exp[src]["n"].as_int()), ue = Index(w.exp[src]["ue"].as_int());
+    Index ur = Index(st["k"].as_int()); long long v = st["v"].as_int();
+    with_fam(fmt, S.bh, S.bw, [&](auto fd) {
+      typedef decltype(fd) FD;
+      with_ty(ty, [&](auto td) {
+        typedef decltype(td) TD; typedef typename FD::template M<typename TD::DT, typename TD::IT> MD;
+        auto& b = target<FD, TD>(w, dst, fmt, ty);
+        if constexpr (FD::id == 0 || FD::id == 4) b = MD(m, n, ue);
+        else if constexpr (FD::id == 1) b = MD(m, n, ue, ur);
+        else if constexpr (FD::id == 3) { if(v == 0) b = MD(m, n); else b = MD(m, n, typename TD::DT(double(v))); }
+        else throw std::runtime_error("no allocating constructor for " + fmt);
+      });
+    });
+  }
+  else if(op == "factory")
+  {
+    Index m = Index(st["k"].as_int()), n = Index(st["v"].as_int());
+    const vj::Value& tri = st["tri"];
+    with_ty(ty, [&](auto td) {
+      typedef decltype(td) TD; typedef typename TD::DT DT; typedef typename TD::IT IT;
+      SparseMatrixFactory<DT, IT> fac(m, n);
+      for(std::size_t k = 0; k < tri.size(); ++k)
+      {
+        IVec t = tri[k].ints();
+        fac.add(Index(t[0]), Index(t[1]), DT(double(t[2])));
+      }
+      if(fac.rows() != m || fac.columns() != n || fac.used_elements() != Index(tri.size()) || fac.size() != m * n)
+        throw Fail{"factory", "SparseMatrixFactory reports rows/columns/used_elements/size " + std::to_string(fac.rows()) + "/" + std::to_string(fac.columns()) + "/" +
+                   std::to_string(fac.used_elements()) + "/" + std::to_string(fac.size())};
+      auto& b = target<FCSR, TD>(w, dst, "csr", ty);
+      b = fac.make_csr();
+    });
+  }
+  else if(op == "convrev")
+  {
+    // src.convert_reverse(dst): values of the csr matrix written back into a csr / bcsr matrix of the same pattern
+    if(!w.slots[dst]) throw std::runtime_error("convert_reverse into a free slot");
+    SlotBase& D = *w.slots[dst];
+    with_slot(S, [&](auto fs, auto ts, auto& a) {
+      typedef decltype(fs) FS; typedef decltype(ts) TS;
+      if constexpr (FS::id == 0)
+        with_slot(D, [&](auto fd, auto td, auto& b) {
+          typedef decltype(fd) FD; typedef decltype(td) TD;
+          if constexpr ((FD::id == 0 || FD::id == 4) && std::is_same<typename TS::DT, typename TD::DT>::value) a.convert_reverse(b);
+          else throw std::runtime_error("convert_reverse target " + D.fmt + "/" + D.ty);
+        });
+      else throw std::runtime_error("convert_reverse needs a csr source");
     });
   }
   else if(op == "copy")
